@@ -5,6 +5,7 @@
 //
 //	gw <tmpl>                               gwbased.Parse + String() + Compile()
 //	st <tmpl>                               httprule.Parse + VerifDump()
+//	ga <tmpl>                               gwbased.Parse + structural export (verifx.GWSegments), for the C20→C03 adapter
 //	gtok <path> / stok <path>               the two tokenizers
 //	trie <method:tmpl,…|-> <method> <path>  NewTrie, Add of every template that parses, Find
 package c20
@@ -76,6 +77,17 @@ func (Area) Exec(input string) string {
 			return "err"
 		}
 		return "ok " + common.HexS(t.VerifDump())
+	case "ga":
+		// structural export of the parsed template, rendered like the C03 slice's `showAst`
+		c, err := verifx.GWParse(string(common.MustUnHex(f[1])))
+		if err != nil {
+			return "ERR"
+		}
+		segs, verb, ok := verifx.GWSegments(c)
+		if !ok {
+			return "ERR"
+		}
+		return showAst(segs, verb)
 	case "gtok":
 		toks, verb := verifx.GWTokenize(string(common.MustUnHex(f[1])))
 		return hexList(toks) + " " + common.HexS(verb)
@@ -103,6 +115,37 @@ func (Area) Exec(input string) string {
 		return "found " + common.HexS(t.VerifTemplate())
 	}
 	return "BADOP"
+}
+
+func showPart(p verifx.GWSeg) string {
+	switch p.Kind {
+	case 'L':
+		return "L" + common.HexS(p.Lit)
+	case 'S':
+		return "S"
+	case 'D':
+		return "D"
+	case 'V': // never produced by the parser inside a variable; rendered so that it cannot equal the model's output
+		return "V" + common.HexS(p.Path) + "!"
+	}
+	return "?"
+}
+
+// showAst renders segments and verb as lean/GB/C03/Driver.lean `showAst` does.
+func showAst(segs []verifx.GWSeg, verb string) string {
+	out := make([]string, len(segs))
+	for i, s := range segs {
+		if s.Kind == 'V' {
+			parts := make([]string, len(s.Parts))
+			for j, p := range s.Parts {
+				parts[j] = showPart(p)
+			}
+			out[i] = "V" + common.HexS(s.Path) + ":" + strings.Join(parts, ".")
+		} else {
+			out[i] = showPart(s)
+		}
+	}
+	return strings.Join(out, ",") + "|" + common.HexS(verb)
 }
 
 // ---- grammar-directed generation -------------------------------------------------------------
@@ -417,6 +460,11 @@ func (Area) Gen(r *rand.Rand, tier string, emit func(string)) {
 		count(kind)
 		emit("gw " + common.HexS(s))
 		emit("st " + common.HexS(s))
+		// adapter tie: the structural export of every template the real parser accepts
+		if _, err := verifx.GWParse(s); err == nil {
+			count("adapter-ast")
+			emit("ga " + common.HexS(s))
+		}
 	}
 	tokBoth := func(s string) {
 		count("tokenizer")
